@@ -27,6 +27,10 @@ Record pcase := mkP {
 Definition CSUM_SRC := 167838211.   (* 10.1.2.3: the addresses the harness passes to UnmarshalWithChecksum *)
 Definition CSUM_DST := LOCALHOST.
 
+(* hdr.Options as the parser left it (also after an error): kind, length of every entry *)
+Definition opts_proj (os : list opt) : list Z :=
+  flat_map (fun o => [Z.of_N (fst o); Z.of_N (snd o)]) os.
+
 Definition model_parse (c : pcase) : Z * Z * list Z :=
   let d := p_data c in
   match p_parser c with
@@ -39,8 +43,9 @@ Definition model_parse (c : pcase) : Z * Z * list Z :=
   | 3 => match tcp_parse d with
          | TPanic s => (2, s, [])
          | THdr h e => ((if e =? 0 then 0 else 1), 0,
-                        [t_sport h; t_dport h; t_flags h; t_off h; t_nopts h; zlen (t_payload h);
-                         if tcp_csum d CSUM_DST CSUM_SRC =? t_csum h then 0 else 1])
+                        [t_sport h; t_dport h; t_flags h; t_off h; zlen (t_opts h); zlen (t_payload h);
+                         if tcp_csum d CSUM_DST CSUM_SRC =? t_csum h then 0 else 1]
+                        ++ opts_proj (t_opts h))
          end
   | 4 => match udp_parse d with
          | Ok u => (0, 0, [u_sport u; u_dport u; zlen (u_payload u)])
@@ -68,7 +73,7 @@ Definition p_sig (c : pcase) : N :=
   if p_class c =? 2 then
     (if (p_site c =? SITE_ARP) || (p_site c =? SITE_ETH) then 0%N
      else if (1 <=? p_site c) && (p_site c <=? 3) then Z.to_N (p_site c)
-     else if (p_site c =? 14) || (p_site c =? 15) then Z.to_N (p_site c)   (* icmp.Parse / udp.Unmarshal *)
+     else if (14 <=? p_site c) && (p_site c <=? 16) then Z.to_N (p_site c)   (* icmp.Parse / udp.Unmarshal / tcp option walk *)
      else 90%N)
   else 0%N.
 
@@ -80,7 +85,7 @@ Definition p_tags (cs : list pcase) : list (N * N) :=
   map (fun c => (p_id c,
     if p_class c =? 1 then 1%N else if p_class c =? 2 then 2%N
     else match p_parser c, p_proj c with
-         | 3, [_; _; _; _; n; _; _] => if n >? 0 then 4%N else 0%N
+         | 3, _ :: _ :: _ :: _ :: n :: _ => if n >? 0 then 4%N else 0%N
          | 2, hl :: _ => if hl =? 20 then 0%N else 4%N
          | _, _ => 0%N
          end)) cs.
@@ -214,7 +219,7 @@ Definition h_sig (c : hcase) : N :=
   if negb (h_fatal c =? 0) then
     (if (1 <=? h_fatal c) && (h_fatal c <=? 6) then Z.to_N (h_fatal c)    (* 6: arp.Unmarshal reached *)
      else if h_fatal c =? 11 then SIG_HANG
-     else if (12 <=? h_fatal c) && (h_fatal c <=? 15) then Z.to_N (h_fatal c)  (* decoder goroutine / knock detector / icmp.Parse / udp.Unmarshal *)
+     else if (12 <=? h_fatal c) && (h_fatal c <=? 16) then Z.to_N (h_fatal c)  (* decoder goroutine / knock detector / icmp.Parse / udp.Unmarshal / tcp option walk *)
      else 90%N)
   else if ev_mem (h_probe c) (h_events c) then 0%N else SIG_PROBE_LOST.
 
